@@ -288,7 +288,7 @@ func (i *instance) AcmeUpdate() {
 	}
 }
 
-func (i *instance) HAProxyUpdate(timer *utils.Timer) error {
+func (i *instance) HAProxyUpdate(timer *utils.Timer) (err error) {
 	// nil config, just ignore
 	if i.config == nil {
 		return nil
@@ -299,7 +299,14 @@ func (i *instance) HAProxyUpdate(timer *utils.Timer) error {
 	//   - i.metrics.IncUpdate<Status>() should be called always, but only once
 	//   - i.updateSuccessful(<bool>) should be called only if haproxy is reloaded or cfg is validated
 	//
-	defer i.config.Commit()
+	defer func() {
+		i.config.Commit()
+		if err != nil {
+			// changes are always committed, so a failure need to ask
+			// the next update to write everything again and to reload
+			i.config.Outdate()
+		}
+	}()
 	i.config.SyncConfig()
 	i.config.Shrink()
 	if err := i.config.WriteTCPServicesMaps(); err != nil {
